@@ -132,6 +132,24 @@ theorem C41_once (start stop step iv : Int) (hs : 0 < step) (hi : 0 < iv) :
   obtain ⟨l, hl, hg, _⟩ := C41_range start stop step iv hs hi
   exact ⟨l, hl, by rw [hg]; exact grid_nodup hs, fun t => by rw [hg]; exact mem_grid hs⟩
 
+/-- **C41 (work conservation).**  The sub-requests together evaluate exactly as many steps as the
+    original request — `(end − start) / step + 1` of them when `start ≤ end` — so splitting neither
+    drops nor repeats an evaluation (a counting corollary of `C41_range`, for every size). -/
+theorem C41_count (start stop step iv : Int) (hs : 0 < step) (hi : 0 < iv) :
+    ∃ l, split start stop step iv = .ok l ∧
+      (l.map (fun q => (grid q.1 q.2 step).length)).sum = (grid start stop step).length ∧
+      (start ≤ stop → (grid start stop step).length = ((stop - start) / step + 1).toNat) := by
+  obtain ⟨l, hl, hg, _⟩ := C41_range start stop step iv hs hi
+  refine ⟨l, hl, ?_, ?_⟩
+  · rw [← hg, List.length_flatMap]
+  · intro hle
+    have : ¬ stop < start := by omega
+    simp [grid, gridN, this]
+
+-- non-vacuity: step > interval, three sub-requests, three evaluations
+example : split 3 40 13 10 = .ok [(3, 3), (16, 16), (29, 40)] ∧
+    ([(3, 3), (16, 16), (29, 40)].map (fun q : Int × Int => (grid q.1 q.2 13).length)).sum = 3 := by decide
+
 /-- a zero step or a zero interval makes `nextIntervalBoundary` divide by zero (Go panics; the
     codec rejects `step ≤ 0` before the middleware is reached) -/
 theorem C41_zero_step_panics : split 0 10 0 5 = .panic ∧ split 0 10 5 0 = .panic := by decide
